@@ -84,6 +84,23 @@ func (e *Extractor) clone() *Extractor {
 		warnings:     append([]Warning(nil), e.warnings...),
 		ocrClient:    e.ocrClient,
 	}
+	// A reader that this extractor opened itself from its file stays with it:
+	// sharing it would let a terminal operation on the derived extractor close
+	// it under the extractor it was derived from. The derived extractor opens
+	// its own reader on demand. (Readers handed in by the caller are shared;
+	// they are never closed by us.)
+	if e.ownsReader && e.filename != "" {
+		newExt.reader = nil
+		newExt.docxReader = nil
+		newExt.odtReader = nil
+		newExt.xlsxReader = nil
+		newExt.pptxReader = nil
+		newExt.htmlReader = nil
+		newExt.epubReader = nil
+		newExt.ownsReader = false
+		newExt.readerOpened = false
+		newExt.ocrClient = nil
+	}
 	return newExt
 }
 
